@@ -145,23 +145,26 @@ var resumedRe = regexp.MustCompile(`^<\.\.\. (\w+) resumed>(.*)$`)
 // parseStrace returns the completed system calls in completion order, the
 // inject-set calls entered by the busiest thread, the calls still in flight at the
 // end of the trace, and whether the process was killed.
-func parseStrace(path string) (calls []rawCall, seq []string, inflight []string, killed bool, err error) {
+// parseStraceText additionally returns the text of the calls of seq (same indexes)
+func parseStraceText(path string) (calls []rawCall, seq []string, seqText []string, inflight []string, killed bool, err error) {
 	f, err := os.Open(path)
 	if err != nil {
-		return nil, nil, nil, false, err
+		return nil, nil, nil, nil, false, err
 	}
 	defer f.Close()
 	sc := bufio.NewScanner(f)
 	sc.Buffer(make([]byte, 1<<20), 1<<26)
 	pending := map[string]string{}
 	perPid := map[string][]string{}
+	perPidTxt := map[string][]string{}
 	var dead []string
 	defer func() {
 		// strace keeps injection counters per thread and per system call:
 		// report the inject-set calls entered by the busiest thread, in order
-		for _, v := range perPid {
+		for pid, v := range perPid {
 			if len(v) > len(seq) {
 				seq = v
+				seqText = perPidTxt[pid]
 			}
 		}
 		// calls entered but never reported as finished: when the process is killed their
@@ -194,6 +197,7 @@ func parseStrace(path string) (calls []rawCall, seq []string, inflight []string,
 			pending[pid] = body
 			if p := strings.IndexByte(body, '('); p > 0 && injectNames[body[:p]] {
 				perPid[pid] = append(perPid[pid], body[:p])
+				perPidTxt[pid] = append(perPidTxt[pid], body)
 			}
 			continue
 		}
@@ -202,6 +206,7 @@ func parseStrace(path string) (calls []rawCall, seq []string, inflight []string,
 			delete(pending, pid)
 		} else if p := strings.IndexByte(rest, '('); p > 0 && injectNames[rest[:p]] {
 			perPid[pid] = append(perPid[pid], rest[:p])
+			perPidTxt[pid] = append(perPidTxt[pid], rest)
 		}
 		p := strings.IndexByte(rest, '(')
 		m := callRe.FindStringSubmatch(rest)
@@ -216,7 +221,7 @@ func parseStrace(path string) (calls []rawCall, seq []string, inflight []string,
 		}
 		calls = append(calls, rc)
 	}
-	return calls, seq, inflight, killed, sc.Err()
+	return calls, seq, seqText, inflight, killed, sc.Err()
 }
 
 // ---- reduction to the model alphabet ---------------------------------------------
